@@ -1094,12 +1094,22 @@ class FusedBlockwiseLayer:
         # function) changes wherever a chunk size does: also probe the first
         # block of every distinct chunk size along each axis, so an odd interior
         # chunk cannot hide between the corner and middle probes.
-        chunks = self.expr.chunks
-        if len(chunks) == len(numblocks):
+        # The fused output can hide the irregularity (a keepdims reduction of a
+        # creation function has unit chunks whatever its input's are), so look at
+        # every fused expression that shares the output's block grid.
+        layouts = [self.expr.chunks]
+        for inner in getattr(self.expr, "exprs", ()):
+            try:
+                layouts.append(inner.chunks)
+            except Exception:
+                continue
+        for chunks in layouts:
+            if len(chunks) != len(numblocks) or any(len(dim) != n for dim, n in zip(chunks, numblocks)):
+                continue
             for i, dim in enumerate(chunks):
                 seen = set()
                 for j, c in enumerate(dim):
-                    if c not in seen and j < numblocks[i]:
+                    if c not in seen:
                         seen.add(c)
                         b = list(zero)
                         b[i] = j
